@@ -843,6 +843,9 @@ class Interp:
                 raise AbstractRaise('AttributeError', f"property '{name}' of '{obj.cls}' object has no setter")
             if name in self.watch_attrs:
                 self.oplog.append(('write', name, obj.id))
+            if obj.cls == 'ndarray_plain':
+                # a plain numpy array has no instance dictionary: new attributes cannot be set on it
+                raise AbstractRaise('AttributeError', f"'numpy.ndarray' object has no attribute '{name}'")
             obj.attrs[name] = v
             return
         if isinstance(obj, (Box, View)):
